@@ -260,7 +260,16 @@ func (g *FuncGen) instr(in ssa.Instruction) {
 	case *ssa.Panic:
 		g.safe("panic", x, "false", g.posText(x))
 		g.c.assert(not(g.bcond[g.curBlock]))
-	case *ssa.Send, *ssa.Select:
+	case *ssa.Send:
+		// a send hands the value to another goroutine; it does not change the sender's state (what the receiver
+		// does with it is concurrency, which contracts do not model).  Ghost statements can name it "chansend"
+		// (arg0 = channel, arg1 = value sent).
+		g.c.note("channel send: no effect on the sender's state (concurrency not modelled)")
+		ch, v := g.value(x.Chan), g.value(x.X)
+		g.ghostState = g.cur
+		g.ghostAtUncontracted("chansend", []Val{ch, v}, nil)
+		g.ghostState = nil
+	case *ssa.Select:
 		g.unsup("channel operation %s", in)
 	case *ssa.If:
 		cv := g.value(x.Cond)
